@@ -487,6 +487,9 @@ pub fn catch<R>(f: impl FnOnce() -> R) -> Result<R, String> {
 
 /// Silence the default panic hook (the engines catch panics and report them themselves).
 pub fn quiet_panics() {
+    if std::env::var_os("VERIF_LOUD_PANICS").is_some() {
+        return;
+    }
     std::panic::set_hook(Box::new(|_| {}));
 }
 
